@@ -495,6 +495,8 @@ func httpHeaders(h HTTPCase, now time.Time) http.Header {
 	case "maxage_aged":
 		out.Set("Cache-Control", "max-age=60")
 		out.Set("Age", "54")
+	case "nocache_maxage":
+		out.Set("Cache-Control", "no-cache, max-age=60")
 	case "nostore_maxage":
 		out.Set("Cache-Control", "no-store, max-age=60")
 	case "private_maxage":
